@@ -20,6 +20,8 @@ package main
 
 import (
 	"fmt"
+	"os"
+	"path/filepath"
 	"go/token"
 	"go/types"
 	"sort"
@@ -274,7 +276,7 @@ func (w *World) syntacticFrame(fn *ssa.Function, topName string) []*Obligation {
 			Text: "read-only frame (structural rule): " + what, Pos: w.Fset.Position(ins.Pos()).String()}
 		q := &Query{Goal: tTrue, Status: "trivial"}
 		if !ok {
-			q.Status = "unknown"
+			q.Goal, q.Status = tFalse, "" // decided structurally: the solver confirms the trivial refutation
 			q.Output = "structural ownership rule does not apply: " + why
 			o.Text += " -- " + why
 		}
@@ -288,7 +290,7 @@ func (w *World) syntacticFrame(fn *ssa.Function, topName string) []*Obligation {
 		for _, ins := range b.Instrs {
 			switch x := ins.(type) {
 			case *ssa.Store:
-				ok, why := w.ownedRoot(x.Addr, map[ssa.Value]bool{}, 0, false)
+				ok, why := w.ownedRootStrict(x.Addr)
 				add(ins, "store target is owned by the call", ok, why)
 			case *ssa.MapUpdate:
 				ok, why := w.ownedRoot(x.Map, map[ssa.Value]bool{}, 0, false)
@@ -379,7 +381,7 @@ func (w *World) formatDelegation() []*FuncResult {
 					}
 					calls++
 					callee := x.Call.StaticCallee()
-					if callee == nil || callee.Name() != "FormatError" || callee.Pkg == nil || !strings.HasSuffix(callee.Pkg.Pkg.Path(), "/errbase") {
+					if callee == nil || callee.Name() != "FormatError" || callee.Pkg == nil || !(strings.HasSuffix(callee.Pkg.Pkg.Path(), "/errbase") || callee.Pkg.Pkg.Path() == w.ModPath) {
 						ok, why = false, "calls something other than errbase.FormatError"
 						continue
 					}
@@ -391,6 +393,12 @@ func (w *World) formatDelegation() []*FuncResult {
 							v = mi.X
 						}
 						recvOK = v == ssa.Value(fn.Params[0])
+						// the Formattable adapter hands over the error it wraps (a field of the receiver)
+						if ld, isLoad := v.(*ssa.UnOp); isLoad && !recvOK {
+							if fa, isFA := ld.X.(*ssa.FieldAddr); isFA && fa.X == ssa.Value(fn.Params[0]) {
+								recvOK = true
+							}
+						}
 					}
 					if !recvOK || a[1] != ssa.Value(fn.Params[1]) || a[2] != ssa.Value(fn.Params[2]) {
 						ok, why = false, "FormatError is not called with (receiver, state, verb)"
@@ -405,7 +413,7 @@ func (w *World) formatDelegation() []*FuncResult {
 			Text: "Format hands (receiver, state, verb) unchanged to errbase.FormatError (structural)", Pos: w.Fset.Position(fn.Pos()).String()}
 		q := &Query{Goal: tTrue, Status: "trivial"}
 		if !ok {
-			q.Status = "unknown"
+			q.Goal, q.Status = tFalse, "" // decided structurally: the solver confirms the trivial refutation
 			q.Output = why
 			o.Text += " -- " + why
 		}
@@ -475,4 +483,113 @@ func storesInto(a *ssa.Alloc) []ssa.Value {
 		scan(a.Parent(), a)
 	}
 	return out
+}
+
+// ownedRootStrict: ownedRoot for an element-write address where slices read out of parameter
+// objects are NOT taken to be owned (only locally created slices / per-call state are).
+func (w *World) ownedRootStrict(addr ssa.Value) (bool, string) {
+	v := addr
+	for i := 0; i < 20; i++ {
+		switch x := v.(type) {
+		case *ssa.IndexAddr:
+			v = x.X
+			continue
+		case *ssa.FieldAddr:
+			v = x.X
+			continue
+		case *ssa.UnOp:
+			if x.Op == token.MUL {
+				// the slice / pointer was loaded from memory: where from?
+				base := x.X
+				for j := 0; j < 20; j++ {
+					if fa, ok := base.(*ssa.FieldAddr); ok {
+						base = fa.X
+						continue
+					}
+					if ia, ok := base.(*ssa.IndexAddr); ok {
+						base = ia.X
+						continue
+					}
+					break
+				}
+				if p, ok := base.(*ssa.Parameter); ok {
+					pt := p.Type()
+					if pp, ok := pt.Underlying().(*types.Pointer); ok {
+						pt = pp.Elem()
+					}
+					if perCallState(pt) {
+						return true, ""
+					}
+					return false, "slice read out of parameter " + p.Name() + " (" + p.Type().String() + "), whose backing array may belong to an error object"
+				}
+			}
+		}
+		break
+	}
+	return w.ownedRoot(addr, map[ssa.Value]bool{}, 0, false)
+}
+
+// registryTable (C01 / C11 / C12): "which function is registered under which key" is part of the
+// wire contract - the pair lemmas name encoder and decoder functions, the registries decide which
+// ones run. The committed table /verif/spec/registry.table is the contract of the init()
+// functions; structural obligations registry#<kind>.<key> compare it, in both directions, with the
+// Register* calls found in the SSA of the current tree.
+func (w *World) registryTable(prop string) []*FuncResult {
+	path := filepath.Join(w.VerifDir, "spec", "registry.table")
+	cur := map[string]string{}
+	for _, rs := range w.registrationSites() {
+		key := "?"
+		if rs.KeyType != nil {
+			key = w.shortType(rs.KeyType)
+		} else if rs.KeyConst != "" {
+			key = rs.KeyConst
+		} else {
+			// key computed at run time from a local value: identified by the registered function
+			key = "key-of:" + w.funcName(rs.Fn)
+		}
+		if prev, dup := cur[rs.Kind+" "+key]; dup && prev != w.funcName(rs.Fn) {
+			key += "@" + w.funcName(rs.In)
+		}
+		cur[rs.Kind+" "+key] = w.funcName(rs.Fn)
+	}
+	if os.Getenv("VERIF_WRITE_REGISTRY") == "1" {
+		var lines []string
+		for _, k := range sortedKeys(cur) {
+			lines = append(lines, k+" = "+cur[k])
+		}
+		os.WriteFile(path, []byte("# kind key = registered function (contract of the init functions; regenerate only on purpose: VERIF_WRITE_REGISTRY=1 ./check C01)\n"+strings.Join(lines, "\n")+"\n"), 0o644)
+	}
+	want := map[string]string{}
+	if data, err := os.ReadFile(path); err == nil {
+		for _, ln := range strings.Split(string(data), "\n") {
+			ln = strings.TrimSpace(ln)
+			if ln == "" || strings.HasPrefix(ln, "#") {
+				continue
+			}
+			if i := strings.Index(ln, " = "); i > 0 {
+				want[ln[:i]] = ln[i+3:]
+			}
+		}
+	}
+	keys := map[string]bool{}
+	for k := range cur {
+		keys[k] = true
+	}
+	for k := range want {
+		keys[k] = true
+	}
+	var obls []*Obligation
+	for _, k := range sortedKeys(keys) {
+		o := &Obligation{Name: "registry#" + strings.ReplaceAll(k, " ", "."), Func: "registry", Kind: "post", Props: []string{prop},
+			Text: "the function registered as " + k + " is the one the wire contracts name (" + want[k] + ")"}
+		q := &Query{Goal: tTrue, Status: "trivial"}
+		if cur[k] != want[k] {
+			q.Goal, q.Status = tFalse, "" // decided structurally: the solver confirms the trivial refutation
+			q.Output = fmt.Sprintf("registered now: %q, contract table: %q", cur[k], want[k])
+			o.Text += " -- " + q.Output
+		}
+		o.Queries = []*Query{q}
+		obls = append(obls, o)
+	}
+	return []*FuncResult{{Name: "registry", Obls: obls}}
 }
